@@ -15,7 +15,8 @@ type RV struct {
 	V     Value
 	Valid bool
 	Addr  *Value // non-nil if addressable (settable)
-	RO    bool   // obtained via unexported field
+	RO    bool   // flagStickyRO: obtained via an unexported non-embedded field (inherited by sub-values)
+	EmbRO bool   // flagEmbedRO: is itself an unexported embedded field (not inherited by its fields)
 }
 
 // RT models *reflect.rtype behind reflect.Type
@@ -365,7 +366,7 @@ func init() {
 			e.reflectPanic("Field index out of range")
 		}
 		f := st.Field(i)
-		r := RV{T: f.Type(), V: copyVal(v.V.(Struct)[i]), Valid: true, RO: v.RO || (!f.Exported() && !f.Embedded()) || (!f.Exported() && f.Embedded())}
+		r := RV{T: f.Type(), V: copyVal(v.V.(Struct)[i]), Valid: true, RO: v.RO || (!f.Exported() && !f.Embedded()), EmbRO: !f.Exported() && f.Embedded()}
 		if v.Addr != nil {
 			s := (*v.Addr).(Struct)
 			r.Addr = &s[i]
@@ -377,11 +378,11 @@ func init() {
 		if !v.Valid {
 			e.reflectPanic("call of reflect.Value.CanInterface on zero Value")
 		}
-		return Bool{V: !v.RO}
+		return Bool{V: !v.RO && !v.EmbRO}
 	}
 	intrinsics["(reflect.Value).Set"] = func(e *Engine, a []Value) Value {
 		v, x := a[0].(RV), a[1].(RV)
-		if v.Addr == nil || v.RO {
+		if v.Addr == nil || v.RO || v.EmbRO {
 			e.reflectPanic("reflect.Value.Set using unaddressable value")
 		}
 		if !x.Valid {
